@@ -344,6 +344,7 @@ prop('C15', [
     state.r_pair,
     misc.r_mdd_bits,
     models.r_bdd_to_mdd,
+    models.r_mdd_collect,
 ],
     'MDD.apply interpreted per alias against the connectives and against '
     'BDD.apply; terminal cases of MDD.ite; sign in MDD._top_cofactor and '
@@ -503,7 +504,8 @@ MODEL_TEXT = {
            'collection, reordering and the MDD class interpreted (30 '
            'conversions: both integer orders, three initial bit orders, '
            'a zone node referenced from inside and from above its zone) '
-           'against the values on the encoded bits.',
+           'against the values on the encoded bits; `MDD.collect_garbage` for '
+           'every choice of referenced top nodes.',
     'C16': ' Models: `dddmp.load` on the output of the parser for five '
            'small files (levels with gaps, node numbers in no order, '
            'constant roots) against a strict reference manager; '
